@@ -814,8 +814,10 @@ pub fn run(ctx: &mut Ctx) {
             e2e.push(E2eCase { tracker: tracker.to_string(), seed: derive_seed(ctx.seed, "C12", "e2e-case", i as u64 * 100 + k), inputs: tier.pick(150, 600) });
         }
     }
+    ctx.confirm_runs = 2;
     ctx.run_regress::<E2eCase, _>("e2e-garbage", prop_e2e);
     ctx.run_enum("e2e-garbage", e2e, false, prop_e2e);
+    ctx.confirm_runs = 0;
     // libFuzzer campaigns are run by bin/check before this binary; their summary is reported here
     if let Ok(p) = std::env::var("VCHECK_FUZZ_SUMMARY") {
         if let Ok(text) = std::fs::read_to_string(&p) {
